@@ -110,7 +110,7 @@ def generate(p65, palt):
              ["GenCpuAlt." + c for c in closure(balt[m], oalt, balt, dalt) if c != m]
         rw_sem = ", ".join(["?eq_%s" % c for c in cs if c not in d65] + (["?eq_tbl_proc"] if uses_tbl_proc else []) + [table_rw])
         # delta only in the syntactic case: [unfold] also zeta-expands the continuations of the generated code (minutes on Step)
-        out.append("Lemma eq_%s : GenCpu65.%s = GenCpuAlt.%s.\nProof.\n  first [ cpu_eq_syn ltac:(cbv delta [GenCpu65.%s GenCpuAlt.%s]) ltac:(rewrite %s)\n        | timeout 120 (cpu_eq_bus ltac:(unfold %s) ltac:(rewrite %s) ltac:(%s)) ].\nQed.\n"
+        out.append("Lemma eq_%s : GenCpu65.%s = GenCpuAlt.%s.\nProof.\n  first [ (cbv delta [GenCpu65.%s GenCpuAlt.%s]; try rewrite %s; timeout 60 reflexivity)\n        | timeout 120 (cpu_eq_bus ltac:(unfold %s) ltac:(rewrite %s) ltac:(%s)) ].\nQed.\n"
                    % (n, n, m, n, m, rw, unf, rw_sem, ("repeat (progress unfold " + ", ".join(ex) + ")") if ex else "idtac"))
         done[n] = m
         lemmas.append("eq_" + n)
